@@ -32,14 +32,14 @@ let pairs_str l = String.concat "," (List.map (fun (k, v) -> key_str k ^ "=" ^ v
 
 let () =
   let ic = open_in Sys.argv.(1) and oc = open_out Sys.argv.(2) in
-  let id = ref "" and order = ref O and invbad = ref 0 in
+  let id = ref "" and order = ref O and invbad = ref 0 and nodump = ref false in
   (try while true do
     let line = input_line ic in
     if String.length line > 5 && String.sub line 0 5 = "CASE " then begin
       (match String.split_on_char ' ' line with
-       | _ :: i :: rest -> id := i;
+       | _ :: i :: rest -> id := i; nodump := false;
            List.iter (fun kv -> match String.split_on_char '=' kv with
-             | ["order"; n] -> order := nat_of_int (int_of_string n) | _ -> ()) rest
+             | ["order"; n] -> order := nat_of_int (int_of_string n) | ["nodump"; "1"] -> nodump := true | _ -> ()) rest
        | _ -> failwith "bad CASE")
     end else if String.length line > 4 && String.sub line 0 4 = "OPS " then begin
       let ops = String.split_on_char ';' (String.sub line 4 (String.length line - 4)) in
@@ -61,8 +61,8 @@ let () =
                                      "pairs=" ^ pairs_str (if n < 0 then l else firstn n l)
                            | Panic p -> dead := true; "panic=" ^ panic_str p)
             | _ -> failwith ("bad op " ^ op) in
-          let b = Buffer.create 256 in dump b !t;
-          let inv = if !dead then true else h_inv_b !order !t in
+          let b = Buffer.create 256 in (if !nodump then Buffer.add_string b "-" else dump b !t);
+          let inv = if !dead || !nodump then true else h_inv_b !order !t in
           if not inv then incr invbad;
           Printf.fprintf oc "%s %d %s | %s chain=ok locks=0 inv=%s\n" !id idx res (Buffer.contents b) (if inv then "t" else "f")
         end) ops
